@@ -2,7 +2,7 @@
    a case is an operation name and a list of generic arguments; the answer is a generic
    output value.  The OCaml driver (eval/driver.ml) only parses / prints these types. *)
 From Coq Require Import String.
-From ArrRs Require Import Base Arr Index Axis Broadcast Lift Split Reduce Sort Join Reorder Edit Bits Linalg Create Str.
+From ArrRs Require Import Base Arr Index Axis Broadcast Lift Split Reduce Sort Join Reorder Edit Bits Linalg Create Str Text.
 From Coq Require QArith.
 Open Scope string_scope.
 Open Scope list_scope.
@@ -553,9 +553,21 @@ Definition table_str : list (string * (list arg -> out)) :=
        | _ => OBad end)
   ].
 
+(* ---- C18: literals and text forms ---- *)
+Definition table_text : list (string * (list arg -> out)) :=
+  [ ("lit_parse", fun args => match args with [AS text] => out_res osarr (parse_literal text) | _ => OBad end)
+  ; ("lit", fun _ => OZ 0%Z)
+  ; ("display", fun args => match args with
+       | [ASA sh es; _; AZ alt] => OS (display (mksa sh es) (alt =? 1)%Z) | _ => OBad end)
+  ; ("tuple_text", fun args => match args with
+       | [ASA _ es] => OList [OS (show_tuple es); OLArr [1] [parse_tuple (show_tuple es)]] | _ => OBad end)
+  ; ("list_text", fun args => match args with
+       | [ASA _ es] => OList [OS (show_list es); OLArr [1] [parse_list (show_list es)]] | _ => OBad end)
+  ].
+
 Definition table : list (string * (list arg -> out)) :=
   table_index ++ table_axis ++ table_broadcast ++ table_ew2 ++ table_ew1 ++ table_ops ++ table_reduce ++ table_sort
-  ++ table_join ++ table_reorder ++ table_edit ++ table_bits ++ table_linalg ++ table_create ++ table_str.
+  ++ table_join ++ table_reorder ++ table_edit ++ table_bits ++ table_linalg ++ table_create ++ table_str ++ table_text.
 
 Fixpoint lookup (name : string) (t : list (string * (list arg -> out))) : option (list arg -> out) :=
   match t with
